@@ -372,6 +372,23 @@ pub struct Scenario {
     pub conns: Vec<Conn>,
     pub probe: Probe,
     pub pool: Option<PoolSc>,
+    /// one fault of the disk seam: the nth call of that kind made by the code under test fails
+    #[serde(default)]
+    pub disk_fault: Option<DiskFault>,
+}
+
+/// what the disk can do to a server: a file that ends before its size says (it was truncated or is
+/// being replaced), an I/O error, a permission or descriptor-table error at open, a vanished file
+#[derive(Serialize, Deserialize, Clone, Debug, PartialEq)]
+pub struct DiskFault {
+    /// "read", "open", "stat" or "seek"
+    pub op: String,
+    /// 1-based count of calls of that kind since the node started
+    pub nth: u32,
+    /// "eof" (reads only: 0 bytes) or an errno name: "EIO", "EACCES", "EMFILE", "ENOENT", "EINTR", "ENOMEM", "EISDIR"
+    pub kind: String,
+    /// reads: every later read of the same descriptor fails the same way
+    pub sticky: bool,
 }
 
 impl Scenario {
@@ -390,6 +407,7 @@ impl Scenario {
             conns: vec![],
             probe: Probe::None,
             pool: None,
+            disk_fault: None,
         }
     }
 }
